@@ -308,6 +308,16 @@ def shard(ctx: Ctx) -> None:
                     if rl > 1:
                         rest_cuts = (rng.randrange(1, rl),)
                 check(ctx, frames, tail, tp, cuts, kind, clabel, rest_cuts)
+    # 1a. large reads (up to asyncio's 256 KiB per data_received call) behind a chunk that ended in the middle of a frame
+    for li, (size, count) in enumerate(((60000, 12), (20000, 30), (1200, 500), (70000, 9))):
+        idx += 1
+        if not ctx.mine(idx):
+            continue
+        frames = [(25 + k % 3, payload(size - (k * 37) % 900, k + li)) for k in range(count)]
+        total = sum(len(refcodec.enc_plain(*f)) for f in frames)
+        for clabel, cuts in (("40067+242553+rest", (40067, 40067 + 242553)), ("partial-then-256KiB-reads", tuple(range(777, total, 262144))),
+                             ("256KiB-reads", tuple(range(262144, total, 262144)))):
+            check(ctx, frames, None, 0, tuple(c for c in cuts if 0 < c < total), kinds[li % 3], "large-reads/" + clabel)
     # 1b. two or three helpers alive at once, fed alternately
     multi = [fr for label, fr in streams(ctx) if label == "multi"]
     for j in range(0, len(multi) - 2, 2):
